@@ -5,6 +5,7 @@ import (
 	"crypto/md5"
 	"encoding/hex"
 	"fmt"
+	"io/fs"
 	"os"
 	"path/filepath"
 	"sort"
@@ -132,7 +133,8 @@ type caseA struct {
 	Prior     bool   `json:"prior_present"`
 	Op        string `json:"op"` // put | copy | mpu | delete | part
 	All       bool   `json:"all_points"`
-	Picks     []int  `json:"picks"` // crash points tried when not All: pick % (number of points)
+	Picks     []int  `json:"picks"`              // crash points tried when not All: pick % (number of points)
+	NoLater   bool   `json:"no_later,omitempty"` // no PUT + DELETE of the key after the restart: what the crash left is there when the bucket is emptied and deleted
 }
 
 type gwState struct {
@@ -641,6 +643,9 @@ func execA(c caseA, each func(crashRun)) (n int, err error) {
 		if why := sv.matches(state{Present: true, W: 3}, "sentinel/obj"); why != "" {
 			return fmt.Errorf("%s: after restart an object acknowledged earlier is damaged: %s", where, why)
 		}
+		if c.NoLater {
+			return nil
+		}
 		// later operations on the key work
 		path := "/" + bkt + "/" + key
 		if r, err := cl().Call("PUT", path, nil, metaOf(3), bodies[3]); err != nil || !r.OK() {
@@ -671,13 +676,13 @@ func execA(c caseA, each func(crashRun)) (n int, err error) {
 		}
 	}
 	// the bucket can be emptied and deleted
-	if err := empty(cl(), bkt, c.Versioned); err != nil {
+	if err := empty(cl(), bkt, c.Versioned, g.sb.Root, g.sb.Ver); err != nil {
 		return n, fmt.Errorf("%s with crashes at %v: %v", c.Op, idx, err)
 	}
 	return n, nil
 }
 
-func empty(cl *s3c.Client, bkt string, versioned bool) error {
+func empty(cl *s3c.Client, bkt string, versioned bool, root, verdir string) error {
 	r, err := cl.Call("GET", "/"+bkt, s3c.Q("uploads", ""), nil, nil)
 	if err != nil {
 		return fmt.Errorf("SETUP: %v", err)
@@ -726,7 +731,36 @@ func empty(cl *s3c.Client, bkt string, versioned bool) error {
 		return fmt.Errorf("SETUP: %v", err)
 	}
 	if d.Status != 204 {
-		return fmt.Errorf("after the crashes the emptied bucket cannot be deleted: %d %s", d.Status, d.Code())
+		// what is in the way: files, or nothing but the directories made for an upload that was cut short
+		var files, dirs, vfiles, vdirs []string
+		scan := func(base string, files, dirs *[]string) {
+			filepath.WalkDir(base, func(p string, e fs.DirEntry, err error) error {
+				rel, _ := filepath.Rel(base, p)
+				if err != nil || rel == "." {
+					return nil
+				}
+				if rel == ".sgwtmp" && e.IsDir() {
+					return filepath.SkipDir
+				}
+				if e.IsDir() {
+					*dirs = append(*dirs, rel)
+				} else {
+					*files = append(*files, rel)
+				}
+				return nil
+			})
+		}
+		scan(filepath.Join(root, bkt), &files, &dirs)
+		if versioned {
+			scan(filepath.Join(verdir, bkt), &vfiles, &vdirs)
+		}
+		if len(files)+len(vfiles) == 0 && len(dirs)+len(vdirs) > 0 {
+			return fmt.Errorf("after the crashes the emptied bucket cannot be deleted: %d %s; nothing is listed and only empty directories made for the interrupted operation remain (bucket directory %v, versions directory %v)", d.Status, d.Code(), dirs, vdirs)
+		}
+		if len(vfiles) > 0 {
+			return fmt.Errorf("after the crashes the emptied bucket cannot be deleted: %d %s; no version is listed but the versions directory holds files %v (directories %v; bucket directory: files %v, directories %v)", d.Status, d.Code(), vfiles, vdirs, files, dirs)
+		}
+		return fmt.Errorf("after the crashes the emptied bucket cannot be deleted: %d %s; files %v and directories %v remain in it", d.Status, d.Code(), files, dirs)
 	}
 	return nil
 }
@@ -755,6 +789,7 @@ func TestC11A(t *testing.T) {
 		if c.Op == "delver" {
 			c.Versioned = true
 		}
+		c.NoLater = rapid.IntRange(0, 2).Draw(t, "no_later") == 0
 		c.All = thorough
 		if !c.All {
 			c.Picks = rapid.SliceOfN(rapid.IntRange(0, 99), 1, 4).Draw(t, "picks")
@@ -771,9 +806,13 @@ func TestC11A(t *testing.T) {
 			}
 		}
 		_, err := execA(c, func(r crashRun) {
-			ev.Case(fmt.Sprintf("%s|prior=%v|%s|%s", c.Op, c.Prior, cfg, r.Point), r.Index > 1 && r.Index < r.Of, "op:"+c.Op, cfg)
+			ev.Case(fmt.Sprintf("%s|prior=%v|%s|%s|%v", c.Op, c.Prior, cfg, r.Point, c.NoLater), r.Index > 1 && r.Index < r.Of, "op:"+c.Op, cfg, fmt.Sprintf("leftovers-kept=%v", c.NoLater))
 		})
 		collect = nil
+		if err != nil && first != nil && known(err) != "" {
+			ev.Known(known(err))
+			err = nil
+		}
 		if err == nil {
 			err = first
 		}
